@@ -59,7 +59,7 @@ from cfdppy.exceptions import (
 from cfdppy.mib import CheckTimerProvider, EntityType, RemoteEntityCfgTable
 from cfdppy.user import TransactionFinishedParams, TransactionParams
 
-from .common import _PositiveAckProcedureParams
+from .common import PacketDestination, _PositiveAckProcedureParams, get_packet_destination
 from .defs import (
     _FileParamsBase,
 )
@@ -398,6 +398,10 @@ class SourceHandler:
             raise InvalidTransactionSeqNum(
                 self._params.transaction_seq_num, packet.transaction_seq_num
             )
+        if get_packet_destination(packet) == PacketDestination.DEST_HANDLER:
+            # File Data PDUs, ACK PDUs for Finished PDUs and the directives checked below belong to
+            # the destination handler.
+            raise InvalidPduForSourceHandler(packet)
         if packet.directive_type in [
             DirectiveType.METADATA_PDU,
             DirectiveType.EOF_PDU,
